@@ -213,6 +213,40 @@ static void reader_unregister(struct thr *t)
 	rcu_unregister_thread();
 }
 
+/* Registration handshake (--reg-handshake=1): now and then a reader, INSIDE its read-side section, asks a
+ * helper thread to register and unregister as a reader and waits for it.  Registration must never depend
+ * on a grace period in progress (the updater drops rcu_registry_lock while it waits): if it does, the
+ * reader cannot leave its section, the grace period cannot end, nothing moves any more. */
+static int reg_handshake;
+static uint64_t hs_req, hs_ack, hs_done;
+static int hs_stop;
+static void *regger_main(void *arg)
+{
+	vp_pin((int) (intptr_t) arg);
+	while (!VP_LOAD(hs_stop)) {
+		uint64_t want = __atomic_load_n(&hs_req, __ATOMIC_ACQUIRE);
+		if (want == VP_LOAD(hs_ack)) {
+			usleep(30);
+			continue;
+		}
+		rcu_register_thread();
+		rcu_read_lock();
+		rcu_read_unlock();
+		rcu_unregister_thread();
+		__atomic_store_n(&hs_ack, want, __ATOMIC_RELEASE);
+		hs_done++;
+	}
+	return NULL;
+}
+static inline void reg_handshake_in_section(struct thr *t)
+{
+	if (!reg_handshake || vp_rand_n(&t->rng, 400))
+		return;
+	uint64_t my = __atomic_add_fetch(&hs_req, 1, __ATOMIC_ACQ_REL);
+	while (__atomic_load_n(&hs_ack, __ATOMIC_ACQUIRE) < my && !VP_LOAD(hs_stop))
+		__asm__ __volatile__("pause");
+}
+
 static void *reader_main(void *arg)
 {
 	struct thr *t = arg;
@@ -237,6 +271,7 @@ static void *reader_main(void *arg)
 			validate(p[i], "qsbr-deref");
 		}
 		mp_check(t);
+		reg_handshake_in_section(t);
 		if (reader_delay_mode)
 			vp_delay_heavy(&t->rng);
 		for (int i = 0; i < nobj; i++)
@@ -305,6 +340,7 @@ static void *reader_main(void *arg)
 		for (int d = 1; d < depth; d++)
 			rcu_read_lock();
 		mp_check(t);
+		reg_handshake_in_section(t);
 		if (reader_delay_mode)
 			vp_delay_heavy(&t->rng);
 		else if (sb_lines)
@@ -544,6 +580,8 @@ static void check_intervals(void)
 	}
 	if (sb_lines)
 		vp_counter_add("sections_entered_behind_contended_stores", sb_sections);
+	if (reg_handshake)
+		vp_counter_add("registrations_awaited_from_inside_a_section", hs_done);
 	vp_counter_add("evaluations", evaluations);
 	vp_counter_add("nontrivial", nontrivial);
 	vp_counter_add("interval_pairs_checked", pairs);
@@ -568,6 +606,7 @@ int main(int argc, char **argv)
 	updaters_registered = (int) vp_arg_long("updaters-registered", 1);
 	sig_reader = (int) vp_arg_long("sig-reader", 0);
 	tight = (int) vp_arg_long("tight", 0);
+	reg_handshake = (int) vp_arg_long("reg-handshake", 0);
 	sb_lines = (int) vp_arg_long("sb-lines", 0);
 	n_slots = (uint32_t) vp_arg_long("slots", NSLOTS);
 	if (n_slots < 1 || n_slots > NSLOTS)
@@ -649,6 +688,10 @@ int main(int argc, char **argv)
 		}
 		if (sb_lines && !sb_nhammer)
 			sb_start_hammers(nthr);
+		pthread_t regger;
+		VP_STORE(hs_stop, 0);
+		if (reg_handshake)
+			pthread_create(&regger, NULL, regger_main, (void *) (intptr_t) nthr);
 		for (int i = 0; i < nthr; i++)
 			pthread_create(&thr[i].tid, NULL, i < n_readers ? reader_main : updater_main, &thr[i]);
 		for (int i = n_readers; i < nthr; i++)
@@ -658,6 +701,10 @@ int main(int argc, char **argv)
 			pthread_join(thr[i].tid, NULL);
 		if (sb_lines && sc == scenarios - 1)
 			sb_stop_hammers();
+		if (reg_handshake) {
+			VP_STORE(hs_stop, 1);
+			pthread_join(regger, NULL);
+		}
 
 		/* quiescence checks */
 		uint64_t sc_calls = 0, sc_rets = 0;
